@@ -317,9 +317,14 @@ func classify(r record) (string, string) {
 		return "strict-parse/" + cfg, "the strict parser refuses the file: " + r.StrictErr
 	}
 	if m, ok := r.File.(map[string]any); ok {
-		if ps, ok := m["problems"].([]any); ok && len(ps) > 0 {
-			p := ps[0].(map[string]any)
-			return fmt.Sprintf("wellformed/%v/%s", p["clause"], cfg), fmt.Sprintf("clause %v: %v", p["clause"], p["msg"])
+		if ps, ok := m["problems"].([]any); ok {
+			for _, x := range ps {
+				p := x.(map[string]any)
+				if p["clause"] == "object0" {
+					continue // the remark Trace_PdfFileObserved tolerates
+				}
+				return fmt.Sprintf("wellformed/%v/%s", p["clause"], cfg), fmt.Sprintf("clause %v: %v", p["clause"], p["msg"])
+			}
 		}
 	}
 	return "extracted-differs/" + cfg, "the values the strict parser extracts differ from what the program wrote"
